@@ -94,11 +94,21 @@ def run(idx: Index, rep: Report, tier: str) -> None:
     if not pushes:
         raise AnalysisError("anchor vanished: self.stack.append in DagWalker.iter_walk")
     resets = {n for n in cfg.nodes if n.ast is not None and n.kind in ("stmt",) and _is_reset_of(n.ast, "stack")}
+    # a normal return of _process_stack means the stack is empty again (its body is `while self.stack: pop`)
+    ps = idx.func("model.walkers.dag.DagWalker._process_stack")
+    ps_body = [s for s in ps.node.body if not (isinstance(s, ast.Expr) and isinstance(s.value, ast.Constant))]
+    drains = len(ps_body) == 1 and isinstance(ps_body[0], ast.While) and norm(ps_body[0].test) == "self.stack" and not any(isinstance(x, (ast.Break, ast.Return)) for x in ast.walk(ps_body[0])) and any(isinstance(c, ast.Call) and call_name(c) == "pop" and norm(c.func.value) == "self.stack" for c in ast.walk(ps_body[0]))
+    rep.check(drains, rule1, "DagWalker._process_stack returns normally only with an empty stack", ps.loc(), construct="while self.stack: ... self.stack.pop()", function=ps.qualname)
+    drain_calls = {n for n, c in cfg_nodes_with_call(cfg, "_process_stack")} if drains else set()
+
+    def after_drain(node, succ, label, binds):
+        return node in drain_calls and label != "exc"
+
     for p in pushes:
         w = None
         for succ in cfg.g.successors(p):
             if not _has_label(cfg.g[p][succ].get("label"), "exc"):
-                w = w or feasible_path(cfg, succ, cfg.raise_exit, avoid=resets, correlated=False)
+                w = w or feasible_path(cfg, succ, cfg.raise_exit, avoid=resets, block_edge=after_drain, correlated=False)
         raiser = None
         if w:
             for a, b in zip(w, w[1:]):
